@@ -26,6 +26,8 @@ cdef int floordiv_double(double a, double b, double* out) except -1:
 cdef int mod_double_cdiv(double a, double b, double* out) except -1:
     out[0] = a % b
     return 0
+def to_float_b(bytes s): return float(s)
+def to_float_u(str s): return float(s)
 def py_mod_double(double a, double b):
     cdef double r = 0
     mod_double(a, b, &r)
@@ -228,6 +230,163 @@ def replay(rep, kname, cex):
     return 'REPLAY-REPRODUCED' in txt, txt
 
 
+# ---- float(bytes) fast path: __Pyx__PyBytes_AsDouble over an arbitrary buffer --------------------------------------------------
+MAXL = 7
+
+
+def _isdigit(c):
+    return z3.And(z3.UGE(c, 48), z3.ULE(c, 57))
+
+
+def _trans(st, c):
+    """one step of the float-literal DFA (digits [. digits] [e [sign] digits] with optional leading sign; '1.' and '.5' allowed)"""
+    dig, sign, dot, e = _isdigit(c), z3.Or(c == 43, c == 45), c == 46, z3.Or(c == 101, c == 69)
+    S = lambda v: z3.BitVecVal(v, 4)
+    R = S(9)
+    return z3.If(st == 0, z3.If(dig, S(2), z3.If(sign, S(1), z3.If(dot, S(4), R))),
+           z3.If(st == 1, z3.If(dig, S(2), z3.If(dot, S(4), R)),
+           z3.If(st == 2, z3.If(dig, S(2), z3.If(dot, S(3), z3.If(e, S(6), R))),
+           z3.If(st == 3, z3.If(dig, S(5), z3.If(e, S(6), R)),
+           z3.If(st == 4, z3.If(dig, S(5), R),
+           z3.If(st == 5, z3.If(dig, S(5), z3.If(e, S(6), R)),
+           z3.If(st == 6, z3.If(dig, S(8), z3.If(sign, S(7), R)),
+           z3.If(st == 7, z3.If(dig, S(8), R),
+           z3.If(st == 8, z3.If(dig, S(8), R), R)))))))))
+
+
+def _accepting(st):
+    return z3.Or(st == 2, st == 3, st == 5, st == 8)
+
+
+def _dfa(chars, n, skip_underscore):
+    st = z3.BitVecVal(0, 4)
+    for k, c in enumerate(chars):
+        step = _trans(st, c)
+        if skip_underscore:
+            step = z3.If(c == 95, st, step)
+        st = z3.If(z3.BitVecVal(k, 64) < n, step, st)
+    return _accepting(st)
+
+
+def check_parse(_):
+    out = []
+    t0 = time.time()
+    fname = '__Pyx__PyBytes_AsDouble'
+    try:
+        ex, env = _B.new_exec(unroll=MAXL + 2)
+        L = z3.BitVec('length', 64)
+        buf = ex.new_region('text', size=L + 1, kind='elems', elemsize=1)
+        chars = [z3.Select(buf.array, z3.BitVecVal(k, 64)) for k in range(MAXL + 1)]
+        obj, oinv = env.make_opaque('obj')
+        calls = []
+        i8 = ir.T('int', bits=8)
+        verr = env.exc_type('PyExc_ValueError')
+
+        def strtod(ex_, g, a, rt, caller):
+            # PyOS_string_to_double(s, &end, NULL): the whole NUL-terminated string is a float literal -> end = its end;
+            # otherwise end stops earlier, or (no valid prefix) -1.0 with ValueError and end = s
+            sc = [ex_.load(symex.Ptr(a[0].bv + k, a[0].regions), i8, g, 'stub') for k in range(MAXL + 1)]
+            n = z3.BitVecVal(MAXL + 1, 64)
+            for k in reversed(range(MAXL + 1)):
+                n = z3.If(sc[k] == 0, z3.BitVecVal(k, 64), n)
+            full = z3.And(_dfa(sc[:MAXL], n, False), n <= MAXL)
+            idx = len(calls)
+            stop = z3.BitVec('strtod_stop_%d' % idx, 64)
+            noprefix = z3.Bool('strtod_no_prefix_%d' % idx)
+            val = z3.FP('strtod_value_%d' % idx, z3.Float64())
+            ex_.assumptions.append(z3.And(stop >= 0, stop < n))
+            endp = z3.If(full, a[0].bv + n, z3.If(noprefix, a[0].bv, a[0].bv + stop))
+            ex_.store(a[1], symex.Ptr(endp, a[0].regions), ir.T('ptr', elem=i8), g, 'stub')
+            env.set_error(z3.And(g, z3.Not(full), noprefix), ex_.ptr_to(verr))
+            calls.append(dict(e=env.event(g, 'strtod', a, val), full=full, chars=sc, n=n))
+            return z3.If(z3.And(z3.Not(full), noprefix), z3.FPVal(-1.0, z3.Float64()), val)
+        ex.stubs['PyOS_string_to_double'] = strtod
+        fb = []
+
+        def fallback(ex_, g, a, rt, caller):
+            r = z3.FP('fallback_value', z3.Float64())
+            fb.append(env.event(g, 'fallback', a, r))
+            return r
+        ex.stubs['__Pyx_SlowPyString_AsDouble'] = fallback
+        ret, rg = ex.run(fname, [obj, ex.ptr_to(buf), L])
+    except (symex.Unsupported, ir.ParseError, KeyError, IndexError) as e:
+        return [dict(name='float(bytes):encode', status='inconclusive', s=time.time() - t0, detail='Unsupported: %s' % str(e)[:300], mandatory=True)]
+    isspace = lambda c: z3.Or(c == 32, z3.And(z3.UGE(c, 9), z3.ULE(c, 13)))
+    text = chars[:MAXL]
+    pre = [oinv, L >= 1, L <= MAXL, z3.Select(buf.array, L) == 0] + [z3.Implies(z3.BitVecVal(k, 64) < L, z3.And(c != 0, z3.Not(isspace(c)))) for k, c in enumerate(text)] + list(ex.assumptions)
+    # CPython: underscores only between digits, the rest (underscores removed) a float literal; or [sign] inf / infinity / nan
+    und_ok = z3.BoolVal(True)
+    for k, c in enumerate(text):
+        prev_d = _isdigit(text[k - 1]) if k > 0 else z3.BoolVal(False)
+        next_d = z3.And(_isdigit(text[k + 1]), z3.BitVecVal(k + 1, 64) < L) if k + 1 < MAXL else z3.BoolVal(False)
+        und_ok = z3.And(und_ok, z3.Implies(z3.And(z3.BitVecVal(k, 64) < L, c == 95), z3.And(prev_d, next_d)))
+    lower = lambda c: z3.If(z3.And(z3.UGE(c, 65), z3.ULE(c, 90)), c + 32, c)
+
+    def word_at(off, w):
+        return z3.And(*[lower(text[off + i]) == ord(ch) for i, ch in enumerate(w)]) if off + len(w) <= MAXL else z3.BoolVal(False)
+    infnan = z3.BoolVal(False)
+    for off in (0, 1):
+        signed_ok = z3.Or(text[0] == 43, text[0] == 45) if off else z3.BoolVal(True)
+        for w in ('nan', 'inf'):
+            infnan = z3.Or(infnan, z3.And(signed_ok, L == off + 3, word_at(off, w)))
+    accept = z3.Or(z3.And(und_ok, _dfa(text, L, True)), infnan)
+    fell_back = z3.Or(*[e.guard for e in fb]) if fb else z3.BoolVal(False)
+
+    def cexf(m):
+        n = m.eval(L, model_completion=True).as_long()
+        return dict(kind='parse', text=bytes(m.eval(c, model_completion=True).as_long() for c in text[:n]).decode('latin-1'))
+
+    def ob(name, conds, kind_='unsat'):
+        r, m, s_ = solve.check(pre + conds, int(os.environ.get('VF_QTIMEOUT', '120')))
+        d = dict(name='float(bytes) fast path: %s' % name, s=s_, mandatory=True)
+        d['status'] = ({'unsat': 'proved', 'sat': 'refuted'} if kind_ == 'unsat' else {'sat': 'witness', 'unsat': 'vacuous'}).get(r, 'inconclusive')
+        if r == 'sat' and kind_ == 'unsat':
+            d['cex'] = cexf(m)
+        out.append(d)
+    ob('a value is returned without consulting CPython only for texts CPython accepts (underscores between digits only), for every text of 1..%d bytes' % MAXL,
+       [rg, z3.Not(fell_back), env.no_error(), z3.Not(accept)])
+    for c in calls:
+        pass
+    # the string handed to the number parser is the text with exactly the underscores removed
+    if calls:
+        bad = z3.BoolVal(False)
+        for c in calls:
+            # compaction check: count of non-underscore chars == n, and the j-th kept char equals c.chars[j]
+            j = z3.BitVecVal(0, 64)
+            okc = z3.BoolVal(True)
+            for k, ch in enumerate(text):
+                live = z3.And(z3.BitVecVal(k, 64) < L, ch != 95)
+                for jj in range(MAXL):
+                    okc = z3.And(okc, z3.Implies(z3.And(live, j == jj), c['chars'][jj] == ch))
+                j = z3.If(live, j + 1, j)
+            bad = z3.Or(bad, z3.And(c['e'].guard, z3.Not(z3.And(okc, c['n'] == j))))
+        ob('the number parser receives the text with exactly its underscores removed, NUL-terminated', [bad])
+    ubs = [c for c, d_, f_ in ex.ub if f_ != 'stub']
+    if ubs:
+        ob('no UB, no access outside the text or the 40-byte scratch buffer', [z3.Or(*ubs)])
+    if ex.unwind:
+        ob('loop unwinding bound suffices', [z3.Or(*[u[0] for u in ex.unwind])])
+    ob('reach: a text with an underscore is parsed on the fast path', [rg, z3.Not(fell_back), env.no_error(), z3.Or(*[z3.And(z3.BitVecVal(k, 64) < L, c == 95) for k, c in enumerate(text)])], kind_='witness')
+    return out
+
+
+PARSE_REPLAY = r"""
+import sys
+sys.path.insert(0, %(dir)r)
+import %(mod)s as M
+t = %(text)r
+bad = []
+for f, a in ((M.to_float_b, t.encode('latin-1')), (M.to_float_u, t)):
+    try: got = ('v', repr(f(a)))
+    except ValueError: got = ('ValueError',)
+    try: want = ('v', repr(float(a)))
+    except ValueError: want = ('ValueError',)
+    if got != want: bad.append((a, got, want))
+print('REPLAY', bad)
+print('REPLAY-REPRODUCED' if bad else 'REPLAY-HOLDS')
+"""
+
+
 KERNELS = ['mod_double', 'mod_float', 'div_double', 'floordiv_double', 'mod_double_cdiv']
 
 
@@ -240,9 +399,10 @@ def run(rep, tier, only=None):
     ks = [k for k in KERNELS if not only or only in k]
     rep.functions += ['Cython/Utility/CMath.c: ModFloat (__Pyx_mod_double, __Pyx_mod_float); generated zero-division checks and `//` lowering for C '
                       'doubles (ExprNodes.DivNode/ModNode) [%s]' % build.sha(_B.cfile)]
-    rep.bounds += ['every pair of binary64 (binary32 for float) operands incl. +-0, subnormals, infinities and NaNs (QF_FP)',
+    rep.bounds += ['float(bytes) fast path (__Pyx__PyBytes_AsDouble): every text of 1..7 bytes without whitespace or NUL; PyOS_string_to_double replaced by a float-literal DFA (value arbitrary)',
+                   'every pair of binary64 (binary32 for float) operands incl. +-0, subnormals, infinities and NaNs (QF_FP)',
                    'fmod is an uninterpreted function constrained by its C99 7.12.10.1 / F.9.7.1 contract, shared by implementation and reference',
-                   'outside: the value produced by libm/PyOS_string_to_double; float() parsing fast path (not encoded in this version); + - * comparisons on C doubles (native IEEE instructions)']
+                   'outside: the value produced by libm/PyOS_string_to_double; + - * comparisons on C doubles (native IEEE instructions)']
     rep.assume('reference: CPython 3.12 float_rem / float_floor_div transcribed from Objects/floatobject.c', 'floor() is IEEE roundToIntegral(RTN)')
     with mp.Pool(min(16, os.cpu_count() or 4)) as pool:
         results = pool.map(check_kernel, ks, chunksize=1)
@@ -266,6 +426,22 @@ def run(rep, tier, only=None):
                     rep.violation('%s fails for a=%r b=%r: %s' % (d['name'], d['cex']['a'], d['cex']['b'], txt), dict(kernel=k, cex=d['cex'], replay_output=txt))
                 else:
                     rep.obligation(d['name'], 'inconclusive', d['s'], d.get('mandatory', True), 'counterexample %s did not reproduce: %s' % (d['cex'], txt))
+            else:
+                rep.obligation(d['name'], d['status'], d['s'], d.get('mandatory', True), d.get('detail'))
+    if not only or 'parse' in only:
+        for d in check_parse(None):
+            if d['status'] == 'refuted':
+                global _NATIVE
+                if _NATIVE is None:
+                    _NATIVE = build.native(_B.cfile, extra_flags=['-lm'])
+                p = subprocess.run(['/verif/.venv/bin/python', '-c', PARSE_REPLAY % dict(dir=os.path.dirname(_NATIVE), mod=_B.name, text=d['cex']['text'])], capture_output=True, text=True, timeout=60)
+                txt = (p.stdout + p.stderr).strip()[-400:]
+                rep.validated += 1
+                if 'REPLAY-REPRODUCED' in txt or p.returncode < 0:
+                    rep.obligation(d['name'], 'refuted', d['s'], True, str(d['cex']))
+                    rep.violation('%s fails for %r: %s' % (d['name'], d['cex']['text'], txt), dict(cex=d['cex'], replay_output=txt))
+                else:
+                    rep.obligation(d['name'], 'inconclusive', d['s'], True, 'counterexample %r did not reproduce: %s' % (d['cex'], txt))
             else:
                 rep.obligation(d['name'], d['status'], d['s'], d.get('mandatory', True), d.get('detail'))
     rep.cov['states'] = 5 * len(ks)
